@@ -43,6 +43,21 @@ impl ScriptT {
             status: Cell::new(0),
         }
     }
+    /// arbitrary device behaviour, built without loops (`kani::any` on arrays loops over the elements), for
+    /// harnesses that need a small unwinding bound
+    pub fn any_unrolled(device_type: DeviceType) -> Self {
+        fn w() -> [u8; CFG] { kani::any::<u64>().to_le_bytes() }
+        fn g() -> u32 { kani::any() }
+        ScriptT {
+            device_type,
+            cfg: [w(), w(), w(), w(), w(), w(), w(), w(), w(), w(), w(), w()],
+            gener: [g(), g(), g(), g(), g(), g(), g(), g(), g(), g(), g(), g()],
+            t: Cell::new(0),
+            acc: Cell::new([Acc::None; STEPS]),
+            features: kani::any(),
+            status: Cell::new(0),
+        }
+    }
     /// VirtIO 1.x 2.5.1 / 4.1.4.3.1 / 4.2.2.1: the generation changes whenever the configuration changes
     /// (a counter that does not wrap within the STEPS accesses of a scenario).
     pub fn assume_honours_generation(&self) {
